@@ -34,7 +34,8 @@ type Event struct {
 // ProbeStep scripts the outcome of one health probe.
 //
 //	Kind: "ok" (2xx after Delay), "status" (Status after Delay), "refuse",
-//	      "hang" (never answers)
+//	      "hang" (never answers), "ok-stall" (2xx status line and headers at once, then half of the body,
+//	      then nothing: the connection stays open until the prober gives up)
 type ProbeStep struct {
 	Kind   string
 	Delay  time.Duration
@@ -54,6 +55,7 @@ type Response struct {
 	Fault      string // "", "close", "stall", "garbage"
 	FaultAt    int    // byte offset in the raw response at which the fault happens
 	Gaps       []Gap  // pauses while writing (event streams)
+	StreamTail time.Duration // status line, headers and all but the last body byte at once, the last byte after this long
 	CloseAfter bool
 }
 
@@ -134,6 +136,15 @@ func (t *Target) serve(c *Conn, step *ProbeStep) {
 			n.log(Event{Kind: "bad-request", Target: t.Name, Conn: c.ID, Note: err.Error()})
 			return
 		}
+		if !c.Probe && step == nil && ProbeUserAgent != "" && req.Header.Get("User-Agent") == ProbeUserAgent {
+			// a probe sent through a client of the code under test's own making
+			c.Probe = true
+			step = t.nextProbe()
+			if step.Kind == "refuse" {
+				n.log(Event{Kind: "probe-refused", Target: t.Name, Probe: true})
+				return
+			}
+		}
 		if c.Probe {
 			n.log(Event{Kind: "probe", Target: t.Name, Conn: c.ID, Probe: true, URI: req.RequestURI, Header: req.Header})
 			switch step.Kind {
@@ -148,6 +159,13 @@ func (t *Target) serve(c *Conn, step *ProbeStep) {
 			status := 200
 			if step.Kind == "status" {
 				status = step.Status
+			}
+			if step.Kind == "ok-stall" {
+				n.log(Event{Kind: "probe-answer", Target: t.Name, Conn: c.ID, Probe: true, Status: 200, Note: "body stalls"})
+				c.Write([]byte("HTTP/1.1 200 OK\r\nContent-Length: 2\r\nConnection: close\r\n\r\no"))
+				<-c.Done()
+				n.log(Event{Kind: "probe-abandoned", Target: t.Name, Conn: c.ID, Probe: true})
+				return
 			}
 			body := "ok"
 			raw := fmt.Sprintf("HTTP/1.1 %d %s\r\nContent-Length: %d\r\nConnection: close\r\n\r\n%s", status, http.StatusText(status), len(body), body)
@@ -237,6 +255,11 @@ func (t *Target) serve(c *Conn, step *ProbeStep) {
 		raw := resp.Raw
 		if raw == nil {
 			raw = t.buildRaw(resp, req.Method == "HEAD")
+		}
+		if resp.StreamTail > 0 && len(resp.Gaps) == 0 && len(raw) > 1 {
+			cp := *resp
+			cp.Gaps = []Gap{{Offset: len(raw) - 1, Wait: resp.StreamTail}}
+			resp = &cp
 		}
 		ok := t.writeRaw(c, raw, resp)
 		if !ok {
@@ -350,7 +373,7 @@ func (t *Target) buildRaw(r *Response, head bool) []byte {
 
 // planResponse interprets the X-Verif-Plan request header:
 //
-//	delay=<dur>;hang;upgrade;status=<n>;len=<n>;chunked;r=<name>
+//	delay=<dur>;hang;stream=<dur>;upgrade;status=<n>;len=<n>;chunked;r=<name>
 func (t *Target) planResponse(plan string) *Response {
 	r := &Response{Status: 200, Body: []byte(t.Name)}
 	if plan == "" {
@@ -364,6 +387,9 @@ func (t *Target) planResponse(plan string) *Response {
 			r.Delay = d
 		case "hang":
 			r.Hang = true
+		case "stream":
+			d, _ := time.ParseDuration(v)
+			r.StreamTail = d
 		case "upgrade":
 			r.Upgrade = true
 		case "status":
